@@ -192,7 +192,7 @@ CheckOne(cs, o, s0, ref, ist, ist1, kk) ==
                         IN  ~dref.unspec /\ ~dref.diverged /\ Agree(cs, dref, ist) /\ RetAgree(cs, dref, ist)}
         IN  IF expl # {} THEN [r |-> "deviation", dev |-> DevSets[CHOOSE d \in expl : \A d2 \in expl : d <= d2], same |-> same]
             ELSE [r |-> "mismatch", diff |-> Diff(cs, ref, ist), ret |-> RetAgree(cs, ref, ist),
-                  shapes |-> ShapesOf(cs.src.body), same |-> same]
+                  shapes |-> ShapesOf(cs.src.body) \cup ShapesOfCase(cs.src.body, CSubs), same |-> same]
 
 \* (No bound variable may enclose the evaluation: TLC does not cache lazily evaluated LET definitions /
 \* operator arguments inside quantifier, set- or function-constructor bodies, so s0, ref and the IL
